@@ -176,7 +176,7 @@ var prop = vh.Define("C04", "wellformed", func(c Case, r *vh.R) {
 
 func TestPropWellFormed(t *testing.T) {
 	prop.Rapid(t, func(t *rapid.T) Case {
-		s := bundlekit.Gen(t)
+		s := bundlekit.GenWide(t)
 		return Case{Spec: *s, Sink: rapid.SampledFrom([]string{"buffer", "plain", "readerfrom", "counting-prewritten", "counting-prewritten-rf"}).Draw(t, "sink")}
 	})
 }
